@@ -284,15 +284,42 @@ const NEGATIVE: [(&str, bool); 26] = [
     ("0xa", true),
 ];
 const C18_B: usize = NEGATIVE.len();
+/// three long searches (the quantifier names 3-digit prefixes: thousands of candidates): a single
+/// searcher on the real binary and in E2 past its 1000th candidate, two workers past 2000
+const C18_C: usize = 3;
 
 impl Plan for C18Plan {
     fn total(&self) -> usize {
-        C18_A + C18_B + self.seeded
+        C18_A + C18_B + C18_C + self.seeded
     }
     fn enumerated(&self) -> usize {
-        C18_A + C18_B
+        C18_A + C18_B + C18_C
     }
     fn case(&self, idx: usize) -> AnyCase {
+        if (C18_A + C18_B..C18_A + C18_B + C18_C).contains(&idx) {
+            let k = idx - C18_A - C18_B;
+            let mut rng = fixed_rng(0xC18C, idx);
+            let spec = VanitySpec {
+                after_plant: 0,
+                fail_burst: 1,
+                length: 12,
+                digits: 4,
+                case_mode: 2,
+                first_digit: None,
+                workers: [0usize, 1, 2][k],
+                plant_at: [1040usize, 1040, 2300][k],
+                fail_at: None,
+                engine_e2: k > 0,
+                default_account: true,
+            };
+            let mut c = gen_vanity(&mut rng, &spec);
+            if let Some(e2) = c.e2.as_mut() {
+                // one worker far ahead of the other
+                e2.sched = crate::e2proto::SchedSpec { policy: "sticky".into(), seed: 7, param: 250, horizon: 64, trace: vec![] };
+            }
+            c.e3 = false;
+            return AnyCase::New(c);
+        }
         if idx < C18_A {
             // all 16 single digits, letters in both cases, x thread counts 0, 1, 2, 16
             let d = DIGITS22[idx / 4];
@@ -394,7 +421,7 @@ impl Plan for C18Plan {
     fn rule(&self) -> String {
         format!(
             "Case i is a pure function of (VERIF_SEED, i). Enumerated: [0,{C18_A}) all 16 one-digit prefixes (letters in both cases) x thread counts 0,1,2,16 in E2 \
-             with a planted match; [{C18_A},{}) refused/open spellings (non-hex digit, look-alike digits, missing 0x, 0X, both selectors). Seeded: length, prefix of \
+             with a planted match; [{C18_A},{}) refused/open spellings (non-hex digit, look-alike digits, missing 0x, 0X, both selectors). Then three long searches (plant at draw 1040 for 0 and 1 workers, 2300 for 2 workers). Seeded: length, prefix of \
              0..40 digits (weighted to 1..3) taken from the reference address of a planted entropy value with per-letter case flips, passphrase (ASCII/non-ASCII), \
              selector (default, account index, explicit path of depth 1..6), workers from {{0,1,2,3,4,8,16,64}}, plant position 0..12, scheduler policy \
              random / sticky / PCT-like with its own seed; single-searcher runs are repeated on the real binary and must agree. distinct_nontrivial = distinct \
